@@ -448,6 +448,25 @@ func init() {
 			Val{T: errType(), L: []string{ite(okc, "0", e.L[0]), ite(okc, "0", e.L[1])}})
 	}
 
+	// ---- net/url, strconv ----
+	s["net/url.Parse"] = func(ex *Exec, fr *Frame, st *State, c *callCtx) Val {
+		ref := ex.newRef(st, "url")
+		UT := c.results().At(0).Type().Underlying().(*types.Pointer).Elem()
+		ex.storeDecoded(st, UT, ref)
+		isErr := ex.fresh("fails.urlparse", sBool)
+		e := ex.freshErr(st, "urlparse")
+		return tup(Val{T: c.results().At(0).Type(), L: []string{ite(isErr, "0", ref)}}, Val{T: errType(), L: []string{ite(isErr, e.L[0], "0"), ite(isErr, e.L[1], "0")}})
+	}
+	s["strconv.ParseUint"] = func(ex *Exec, fr *Frame, st *State, c *callCtx) Val {
+		v := ex.fresh("parsed", bv64)
+		e := ex.maybeErr(st, "parseuint")
+		bits := c.args[2].L[0]
+		// on success the value fits into bitSize bits (bitSize 0 means 64)
+		lim := app("bvshl", bvLit(1, 64), bits)
+		ex.assume(st.pc, implies(and(eq(e.L[0], "0"), app("bvult", bits, bvLit(64, 64)), not(eq(bits, bvLit(0, 64)))), app("bvult", v, lim)))
+		return tup(Val{T: types.Typ[types.Uint64], L: []string{v}}, e)
+	}
+
 	// ---- net.Conn ----
 	s["net.Conn.Read"] = func(ex *Exec, fr *Frame, st *State, c *callCtx) Val {
 		b := c.args[0]
